@@ -215,6 +215,9 @@ def check_memos(ck, prog, pid=None, scope=None, E=None, decide_lossy=None):
                   found={"table": "%s (%s-level)" % (s.table, s.scope), "key": r["key"], "missing": r["missing"], "why": r["why"]},
                   slot="table:" + s.table, where=s.where(), note="a memo keyed on part of its inputs returns a stale value for some call history")
         elif r["verdict"] == "ok":
+            if s.scope == "object" and not getattr(s, "slot", False):
+                from lcsa import sym as _sym
+                _sym.MEMO_OK_TABLES.add(s.table)
             ck.ob("MEMO-KEY", s.construct, True, expected="complete key", found={"table": s.table, "key": r["key"]}, slot="table:" + s.table, where=s.where())
         else:
             # a key made of projections (counts, lengths): only a property that knows what the cached value depends on can decide it
